@@ -115,7 +115,7 @@ theorem skipAttrWs_exact : ∀ (k : Nat) (ws z : Bytes) (c : UInt8) (z' : Bytes)
 with the value from the `=` on -/
 theorem readAttribute_name (tag : Tag) (st : St) (ws : Bytes) (n0 : UInt8) (ns : Bytes) (m0 : UInt8) (name R2 : Bytes)
     (hws : ∀ x ∈ ws, isWs x = true) (h0 : isWs n0 = false) (hst : (n0 == 62) = false ∧ (n0 == 47) = false) (hns : ∀ x ∈ ns, (x == 58) = false)
-    (hname : ∀ x ∈ name, (x == 61 || isWs x) = false) (hwin : ns.length + name.length + 4 ≤ 128) (hR2 : 1 ≤ R2.length)
+    (hname : ∀ x ∈ name, (x == 61 || isWs x) = false) (hwin : ns.length + name.length + 4 ≤ 128) (hR2 : 4 ≤ R2.length)
     (hrest : st.rest = ws ++ (((n0 :: ns) ++ [58] ++ (m0 :: name)) ++ 61 :: R2)) :
     readAttribute tag st = (readAttrValue tag 8 256 >>= fun x => match x with
       | (v, tag') => pure ({ pt := 1, parent := tag.self, self := identify (n0 :: ns) (m0 :: name), val := v }, tag'))
@@ -140,8 +140,11 @@ theorem readAttribute_name (tag : Tag) (st : St) (ws : Bytes) (n0 : UInt8) (ns :
     have : ((n0 :: ns) ++ [58] ++ (m0 :: name) : Bytes).length = ns.length + name.length + 3 := by simp; omega
     rw [← this, List.drop_left]
   show (discard (ns.length + name.length + 3) >>= fun _ => _) _ = _
-  show (readAttrValue tag 8 256 >>= fun x => _) { st with rest := (((n0 :: ns) ++ [58] ++ (m0 :: name)) ++ 61 :: R2 : Bytes).drop (ns.length + name.length + 3) } = _
+  show (skipAttrWs (st.rest.length + 2) >>= fun _ => _) { st with rest := (((n0 :: ns) ++ [58] ++ (m0 :: name)) ++ 61 :: R2 : Bytes).drop (ns.length + name.length + 3) } = _
   rw [hdrop]
+  -- the '=' follows the name directly: the second white-space skip changes nothing
+  rw [bindOk _ _ _ _ _ (skipAttrWs_exact 0 [] (61 :: R2) 61 R2 (st.rest.length + 2) { st with rest := 61 :: R2 } rfl (by intro x hx; cases hx) rfl (by decide)
+    (by simp only [List.length_cons]; omega) rfl (by omega))]
 
 theorem peek256 (st : St) (v t'' : Bytes) (q a b : UInt8) (hvwin : v.length + 5 ≤ 256) :
     peek 256 { st with rest := [61, q] ++ v ++ [q, a, b] ++ t'' } =
@@ -166,7 +169,7 @@ theorem readAttribute_exact (tag : Tag) (st : St) (ws : Bytes) (n0 : UInt8) (ns 
       { st with rest := [c1, c2] ++ t'' }) := by
   have e : ([61, q] ++ v ++ [q, c1, c2] ++ t'' : Bytes) = 61 :: (q :: (v ++ [q, c1, c2] ++ t'')) := by simp
   rw [e] at hrest
-  rw [readAttribute_name tag st ws n0 ns m0 name _ hws h0 hst hns hname hwin (by simp) hrest, ← e]
+  rw [readAttribute_name tag st ws n0 ns m0 name _ hws h0 hst hns hname hwin (by simp; omega) hrest, ← e]
   rw [bindOk _ _ _ _ _ (attr_value_exact tag 7 256 _ v _ q c1 c2 hq hv (peek256 st v t'' q c1 c2 hvwin) h62 h47)]
   have hfin : ([61, q] ++ v ++ [q, c1, c2] ++ t'' : Bytes).drop (v.length + 3) = [c1, c2] ++ t'' := by
     have e : ([61, q] ++ v ++ [q, c1, c2] ++ t'' : Bytes) = ([61, q] ++ v ++ [q]) ++ ([c1, c2] ++ t'') := by simp
@@ -183,8 +186,12 @@ theorem attr_value_close (tag : Tag) (f sz : Nat) (st : St) (v t' : Bytes) (q c2
   unfold readAttrValue
   rw [bindOk _ _ _ _ _ hbuf]
   have h0 : ([61, q] ++ v ++ [q, 62, c2] ++ t' : Bytes)[0]? = some 61 := by simp
-  have h1 : ([61, q] ++ v ++ [q, 62, c2] ++ t' : Bytes)[1]? = some q := by simp
-  rw [bindOk _ _ _ _ _ (at_ok _ 0 61 st h0), bindOk _ _ _ _ _ (at_ok _ 1 q st h1)]
+  rw [bindOk _ _ _ _ _ (at_ok _ 0 61 st h0)]
+  have hq1 : idxFrom (fun b => !isWs b) ([61, q] ++ v ++ [q, 62, c2] ++ t') 1 = 1 := by
+    unfold idxFrom
+    rcases hq with h | h <;> subst h <;> simp [List.findIdx_cons, isWs]
+  have hb1 : ([61, q] ++ v ++ [q, 62, c2] ++ t' : Bytes).getD (1 + 1 - 1) 0 = q := by simp
+  simp only [hq1, hb1, Nat.reduceAdd]
   have hcond : ((61 : UInt8) == 61 && (q == 34 || q == 39)) = true := by rcases hq with h | h <;> subst h <;> decide
   rw [if_pos hcond]
   have hk : (List.drop 2 ([61, q] ++ v ++ [q, 62, c2] ++ t' : Bytes)).findIdx (fun x => x == q) = v.length := by
@@ -224,7 +231,7 @@ theorem readAttribute_last (tag : Tag) (st : St) (ws : Bytes) (n0 : UInt8) (ns :
       { st with rest := c2 :: t'', a := false }) := by
   have e : ([61, q] ++ v ++ [q, 62, c2] ++ t'' : Bytes) = 61 :: (q :: (v ++ [q, 62, c2] ++ t'')) := by simp
   rw [e] at hrest
-  rw [readAttribute_name tag st ws n0 ns m0 name _ hws h0 hst hns hname hwin (by simp) hrest, ← e]
+  rw [readAttribute_name tag st ws n0 ns m0 name _ hws h0 hst hns hname hwin (by simp; omega) hrest, ← e]
   rw [bindOk _ _ _ _ _ (attr_value_close tag 7 256 _ v _ q c2 hq hv (peek256 st v t'' q 62 c2 hvwin))]
   have hfin : ([61, q] ++ v ++ [q, 62, c2] ++ t'' : Bytes).drop (v.length + 4) = c2 :: t'' := by
     have e : ([61, q] ++ v ++ [q, 62, c2] ++ t'' : Bytes) = ([61, q] ++ v ++ [q, 62]) ++ (c2 :: t'') := by simp
